@@ -667,11 +667,13 @@ class Prop:
                 return None        # trailing new modes: implementation-vs-specification only
             return "mkCase (ORepeat %s %s) %s" % (coq_tensor(ts[0]), coq_natlist(case["rep"]), tail(out0))
         if op == "pad":
-            if case["fill"] != 0:
+            if float(case["fill"]) != int(case["fill"]):
                 return None
             dims = [d % N for d in aslist(case["dim"], N)]
             sh = case["shape"] if isinstance(case["shape"], list) else [case["shape"]] * len(dims)
             ds = "[" + "; ".join("(%d%%nat, %d%%nat)" % (d, n) for d, n in zip(dims, sh)) + "]"
+            if case["fill"] != 0:
+                return "mkCase (OPadC %s %s (%d)%%Z) %s" % (coq_tensor(ts[0]), ds, int(case["fill"]), tail(out0))
             return "mkCase (OPad0 %s %s) %s" % (coq_tensor(ts[0]), ds, tail(out0))
         if op == "ttm":
             Us = case["U"]
